@@ -129,6 +129,18 @@ def inject(sess, suite, n, t, kind):
                     sess.oracle(r.err == "InvalidSecretShare" and r.culprits() == [ell], "share computed for another recipient accepted / misattributed: %s" % r.raw, [req])
                 sess.case("otherrecipient|" + req, nontrivial=not r.ok)
                 sess.count("fault:other-recipient")
+            # two senders' shares arriving in each other's slots (the two deviations cancel in the sum)
+            if other:
+                o = other[0]
+                mm = {j: dict(r2m[j]) for j in ids}
+                mm[ell][me], mm[o][me] = r2m[o][me], r2m[ell][me]
+                if mm[ell][me] != r2m[ell][me]:
+                    req = base3(mm)
+                    r = sess.call(req, EXACT, "dkg3-swapped")
+                    first = min(ell, o, key=lambda h: fld.dec(h))
+                    sess.oracle(r.err == "InvalidSecretShare" and r.culprits() == [first], "two senders' shares in each other's slots: expected InvalidSecretShare[%s], got %s" % (first, r.raw[:80]), [req])
+                    sess.case("swapped|" + req, nontrivial=not r.ok)
+                    sess.count("fault:swapped-slots")
             # own identifier / missing / unknown sender in round two
             lst = [(j, r2m[j][me]) for j in ids if j != me]
             req = "dkg3 %s sp2=%s r1=%s r2=%s" % (suite, d.sp2[me], r1_str(d.pkg1, me), ";".join("%s:%s" % ((me if j == ell else j), v) for j, v in lst))
